@@ -18,6 +18,10 @@ import sqlimpl
 from common import Check, Driver, Infra, canon_json, log
 
 
+DIALECT_FINDINGS = {("merge", "tsql"): "D29", ("merge", "athena"): "D29", ("merge", "databricks"): "D29", ("merge", "trino"): "D29",
+                    ("update", "exasol"): "D30", ("update", "sqlite"): "D30", ("update", "tsql"): "D30"}
+
+
 def pairs_of(paths):
     return sorted({(p[0], p[-1]) for p in paths})
 
@@ -30,6 +34,8 @@ def gen_cases(chk):
         if s[0] != "query" and not gensql.item_has_subq(s):
             cases.append((name, s))
     for name, s in gensql.enumerate_columns():
+        cases.append((name, s))
+    for name, s in gensql.enumerate_dml():
         cases.append((name, s))
     n_rand = 5000 if chk.tier == "thorough" else 400
     R = gensql.Rand(chk.rng, max_depth=3 if chk.tier == "thorough" else 2, allow={"subq_item": False})
@@ -188,6 +194,13 @@ def run(chk):
                     chk.known("D16")
             if st.c["agree"] % 500 == 1:
                 chk.sample({"sql": ans1[ci]["sql"][0], "dialect": d, "pairs": pairs_of(ip) if isinstance(ip, list) else ip})
+            continue
+        # dialect-specific loss of UPDATE / MERGE column lineage (findings D29 / D30): the reported paths are a subset of the
+        # model's (= ANSI) answer
+        fid = DIALECT_FINDINGS.get((s[0], d))
+        if fid and fid in listed and isinstance(ip, list) and isinstance(m1, list) and all(p_ in m1 for p_ in ip):
+            chk.known(fid)
+            st.c["known:" + fid] += 1
             continue
         st.c["impl!=model"] += 1
         if first is None:
